@@ -59,7 +59,12 @@ func main() {
 			if id%2 == 0 {
 				l.Push([2]int{id, id})
 				pushed.Add(1)
-			} else if _, ok := l.PopWait(0); ok {
+			} else if id == 1 {
+				if _, ok := l.PopWait(0); ok {
+					popped.Add(1)
+				}
+			} else if _, ok := l.PopWait(2 * time.Millisecond); ok {
+				// positive duration: the ticker-driven path (not modelled; race detection only)
 				popped.Add(1)
 			}
 		})
